@@ -1844,13 +1844,12 @@ def unbatch(batched_values):
   b1, b2 = batched_values.shape[0], batched_values.shape[1]
   results = []
   for v_array in jnp.split(batched_values, indices_or_sections=b1, axis=0):
-    v_array = jnp.squeeze(v_array)
+    # Only drop the two batching axes: a bare squeeze would also drop unit
+    # dimensions of the values themselves (e.g. 1x1 statistics).
+    v_array = jnp.squeeze(v_array, axis=0)
     # b2 = batches (number of preconditioner computation) per core.
-    if b2 > 1:
-      for v in jnp.split(v_array, indices_or_sections=b2, axis=0):
-        results.append(jnp.squeeze(v))
-    else:
-      results.append(v_array)
+    for v in jnp.split(v_array, indices_or_sections=b2, axis=0):
+      results.append(jnp.squeeze(v, axis=0))
   return results
 
 
